@@ -152,7 +152,15 @@ func genC10(t *rapid.T) C10Case {
 			if kind == world.KHTTPRoute {
 				nm := g.intn("nmatches", 0, 2)
 				for k := 0; k < nm; k++ {
-					rule.Matches = append(rule.Matches, world.Match{Type: g.pick("mtype", []string{"", "PathPrefix", "Exact"}), Value: g.pick("mvalue", []string{"", "/", "/app", "/app/sub", "/b"})})
+					m := world.Match{Type: g.pick("mtype", []string{"", "PathPrefix", "Exact"}), Value: g.pick("mvalue", []string{"", "/", "/app", "/app/sub", "/b"})}
+					if g.chance("mheaders", 25) {
+						// a match with header conditions is another match than the same path without them
+						m.Headers = map[string]string{g.pick("mhname", []string{"x-canary", "x-env"}): g.pick("mhvalue", []string{"true", "dev"})}
+						if g.chance("mplain", 50) {
+							rule.Matches = append(rule.Matches, world.Match{Type: m.Type, Value: m.Value})
+						}
+					}
+					rule.Matches = append(rule.Matches, m)
 				}
 			}
 			nb := g.intn("nbackrefs", 1, 2)
@@ -252,10 +260,36 @@ type gwBackend struct {
 	Servers map[string]bool // ip:port -> weight > 0
 }
 
+// gwHdrRule is an admitted match that carries header conditions.
+type gwHdrRule struct {
+	C04Rule
+	Headers map[string]string
+	Back    string
+}
+
+func gwHeaderKey(h map[string]string) string {
+	var l []string
+	for k, v := range h {
+		l = append(l, strings.ToLower(k)+"="+v)
+	}
+	sort.Strings(l)
+	return strings.Join(l, ",")
+}
+
+// gwPathMatches: Exact is the whole path, PathPrefix matches path elements.
+func gwPathMatches(r C04Rule, path string) bool {
+	if r.Type == "exact" {
+		return path == r.Path
+	}
+	pfx := strings.TrimSuffix(r.Path, "/")
+	return path == pfx || strings.HasPrefix(path, pfx+"/")
+}
+
 type gwRef struct {
-	Hosts    map[string][]refRule  // "" = default host
-	Backends map[string]*gwBackend // id -> servers
-	TCP      map[int]string        // port -> backend id
+	Hosts    map[string][]refRule   // "" = default host
+	HdrRules map[string][]gwHdrRule // matches with header conditions
+	Backends map[string]*gwBackend  // id -> servers
+	TCP      map[int]string         // port -> backend id
 	Admitted int
 	Rejected map[string]int // reason -> count
 }
@@ -402,7 +436,7 @@ func gwResolveBackend(w *world.World, rt *world.Obj, id string, refs []world.Bac
 }
 
 func gwBuild(w *world.World) *gwRef {
-	r := &gwRef{Hosts: map[string][]refRule{}, Backends: map[string]*gwBackend{}, TCP: map[int]string{}, Rejected: map[string]int{}}
+	r := &gwRef{Hosts: map[string][]refRule{}, HdrRules: map[string][]gwHdrRule{}, Backends: map[string]*gwBackend{}, TCP: map[int]string{}, Rejected: map[string]int{}}
 	reject := func(why string) { r.Rejected[why]++ }
 	declared := func(host string, rule C04Rule) bool {
 		for _, e := range r.Hosts[host] {
@@ -453,6 +487,20 @@ func gwBuild(w *world.World) *gwRef {
 							host = ""
 						}
 						cr := C04Rule{Host: host, Path: path, Type: typ}
+						if len(m.Headers) > 0 {
+							// a match with header conditions: redeclared only if path, type and conditions are the same
+							key := gwHeaderKey(m.Headers)
+							dup := false
+							for _, e := range r.HdrRules[host] {
+								if e.C04Rule == cr && gwHeaderKey(e.Headers) == key {
+									dup = true
+								}
+							}
+							if !dup {
+								r.HdrRules[host] = append(r.HdrRules[host], gwHdrRule{C04Rule: cr, Headers: m.Headers, Back: id})
+							}
+							continue
+						}
 						if declared(host, cr) {
 							continue
 						}
@@ -594,6 +642,64 @@ func c10Eval(s *ctlsim.Sim, w *world.World) (*Failure, *gwRef) {
 			}
 		}
 	}
+	// matches with header conditions: a request that carries the headers of such a match and whose path it matches
+	// is answered by its backend. Judged where the Gateway API precedence (exact path, longest prefix, number of
+	// header conditions) and the controller's (entries with conditions are looked up first) agree: the match is
+	// declared on the request's own hostname, every match with conditions that applies leads to one backend, and
+	// no match without conditions is more specific on the path.
+	hdrReqs, hdrJudged := 0, 0
+	var hhosts []string
+	for h := range ref.HdrRules {
+		hhosts = append(hhosts, h)
+	}
+	sort.Strings(hhosts)
+	for _, h := range hhosts {
+		if h == "" || strings.Contains(h, "*") {
+			continue
+		}
+		seenSet := map[string]bool{}
+		for _, owner := range ref.HdrRules[h] {
+			if seenSet[gwHeaderKey(owner.Headers)] {
+				continue
+			}
+			seenSet[gwHeaderKey(owner.Headers)] = true
+			for _, p := range paths {
+				var best *gwHdrRule
+				same := true
+				for i := range ref.HdrRules[h] {
+					r := &ref.HdrRules[h][i]
+					if gwHeaderKey(r.Headers) != gwHeaderKey(owner.Headers) || !gwPathMatches(r.C04Rule, p) {
+						continue
+					}
+					if best != nil && best.Back != r.Back {
+						same = false
+					}
+					if best == nil || (r.Type == "exact" && best.Type != "exact") || (r.Type == best.Type && len(r.Path) > len(best.Path)) {
+						best = r
+					}
+				}
+				if best == nil || !same {
+					continue
+				}
+				hdrReqs++
+				if pw := table.winners(h, p); len(pw) > 0 && best.Type != "exact" && (pw[0].Type == "exact" || len(pw[0].Path) > len(best.Path)) {
+					continue
+				}
+				rq := hapcfg.Request{Host: h, Path: p, Headers: owner.Headers}
+				res := cfg.Route(rq)
+				if res.Inconclusive() {
+					continue
+				}
+				hdrJudged++
+				if res.Backend != best.Back {
+					return c10f(ref, failf("C10:header-match-missing", "request %s with headers %v is sent to %q; the admitted match %v with header conditions %v of backend %s applies to it\ntrace:\n  %s",
+						rq, owner.Headers, res.Backend, best.C04Rule, best.Headers, best.Back, strings.Join(res.Trace, "\n  ")))
+				}
+			}
+		}
+	}
+	st.Count("header_requests", hdrReqs)
+	st.Count("header_requests_judged", hdrJudged)
 	// TCP services
 	gotTCP := map[int]string{}
 	for _, sec := range cfg.Sections {
